@@ -448,9 +448,17 @@ class Plumbing:
                         it = _substitute(it, names[0], env[names[0]])
                     st.wrapper = f"vstack[{st.wrapper} for {src(inner.generators[0].target)} in {src(it)}]"
                     return st
+            if q == "numpy.transpose" and len(e.args) == 1 and not e.keywords:
+                st = self._classify_load(f, e.args[0], roots, env, wrap)  # np.transpose(x) without axes is x.T
+                st.wrapper = f"T({st.wrapper})"
+                return st
             return Storage("?", src(e), e, f"call:{src(e)[:60]}", e)
         if isinstance(e, ast.Attribute) and e.attr == "T":
             st = self._classify_load(f, e.value, roots, env, wrap)
+            st.wrapper = f"T({st.wrapper})"
+            return st
+        if isinstance(e, ast.Call) and self.prog.qualify(f.module, dotted(e.func) or "") == "numpy.transpose" and len(e.args) == 1 and not e.keywords:
+            st = self._classify_load(f, e.args[0], roots, env, wrap)  # np.transpose(x) without axes is x.T
             st.wrapper = f"T({st.wrapper})"
             return st
         return Storage("?", src(e), e, f"expr:{src(e)[:60]}", e)
